@@ -66,7 +66,11 @@ def sweep_groups(frame_fn, values, opts_list, rng, base_addr=0x400000, per_group
             su = setups[(i // per_group) % len(setups)] if setups else setup_fn
             for l in (su(a) if su else [df11(5, a)]):
                 g.append(run1(l))
-            for v in part:
+            for j, v in enumerate(part):
+                # now and then the row has been silent for a while: long enough for anything that looks at its age (half the
+                # default expiry and more), or even overdue for the sweep but not swept yet
+                if j % 9 == 4:
+                    g.append(tick(rng.choice([31000, 45000, 59000, 61000, 90000])))
                 g.append(run1(frame_fn(v, a, rng)))
             groups.append(g)
             # first-frame context: fresh addresses, table reset per group
